@@ -19,11 +19,12 @@ VARIABLES l,        \* next line to consume
           cmd,      \* proc |-> name of the command it is running ("" = none)
           removed,  \* proc |-> snapshots it removed during the current command
           saved,    \* proc |-> snapshots it saved during the current command
-          muts,     \* proc |-> number of effective mutating operations in the command
+          muts,     \* proc |-> number of effective mutating operations (not lock files) in the command
+          lockops,  \* proc |-> number of lock-file operations in the command
           base,     \* set of blobs already lost / index entries already unsound by environment damage
           ev        \* the line consumed last (for per-event invariants)
 
-tvars == <<storage, l, cmd, removed, saved, muts, base, ev>>
+tvars == <<storage, l, cmd, removed, saved, muts, lockops, base, ev>>
 
 Rng(s) == {s[k] : k \in DOMAIN s}
 Get(f, k, d) == IF k \in DOMAIN f THEN f[k] ELSE d
@@ -43,13 +44,13 @@ GoodBlobs(e) == {e.blobs[k] : k \in {j \in DOMAIN e.blobs : e.blob_ok[j]}}
 EntrySet(e)  == {<<x[1], x[2]>> : x \in Rng(e.entries)}
 
 Touch(p)  == muts' = Put(muts, p, Get(muts, p, 0) + 1)
-KeepCmd   == UNCHANGED <<cmd, removed, saved, base>>
+KeepCmd   == UNCHANGED <<cmd, removed, saved, base, lockops>>
 
 TReset ==
   /\ Is({"Reset"}) /\ Consume
   /\ packs' = EmptyFn /\ idx' = EmptyFn /\ snaps' = EmptyFn /\ kids' = EmptyFn
   /\ keys' = {} /\ cfg' = 0
-  /\ cmd' = EmptyFn /\ removed' = EmptyFn /\ saved' = EmptyFn /\ muts' = EmptyFn /\ base' = {}
+  /\ cmd' = EmptyFn /\ removed' = EmptyFn /\ saved' = EmptyFn /\ muts' = EmptyFn /\ lockops' = EmptyFn /\ base' = {}
 
 TTree ==
   /\ Is({"Tree"}) /\ Consume
@@ -70,13 +71,13 @@ TSaveSnap ==
   /\ Is({"SaveSnap", "InitSnap"}) /\ Consume
   /\ SaveSnap(E.id, E.tree, E.orig)
   /\ saved' = Put(saved, E.proc, Get(saved, E.proc, {}) \cup {E.id})
-  /\ UNCHANGED <<cmd, removed, base>> /\ Touch(E.proc)
+  /\ UNCHANGED <<cmd, removed, base, lockops>> /\ Touch(E.proc)
 
 TRemoveSnap ==
   /\ Is({"RemoveSnap", "DropSnap"}) /\ Consume
   /\ IF E.id \in DOMAIN snaps THEN RemoveSnap(E.id) ELSE UNCHANGED storage
   /\ removed' = Put(removed, E.proc, Get(removed, E.proc, {}) \cup {E.id})
-  /\ UNCHANGED <<cmd, saved, base>> /\ Touch(E.proc)
+  /\ UNCHANGED <<cmd, saved, base, lockops>> /\ Touch(E.proc)
 
 TRemoveIndex ==
   /\ Is({"RemoveIndex", "DropIndex"}) /\ Consume
@@ -111,8 +112,9 @@ TRemoveConfig ==
 \* lock files are outside the storage model (Lock.tla); they count as mutations
 TLockOp ==
   /\ Is({"SaveLock", "RemoveLock", "InitLock"}) /\ Consume
-  /\ UNCHANGED storage /\ KeepCmd
-  /\ IF E.ev = "InitLock" THEN UNCHANGED muts ELSE muts' = Put(muts, E.proc, Get(muts, E.proc, 0) + 1)
+  /\ UNCHANGED storage /\ UNCHANGED <<cmd, removed, saved, base, muts>>
+  /\ IF E.ev = "InitLock" THEN UNCHANGED lockops
+     ELSE lockops' = Put(lockops, E.proc, Get(lockops, E.proc, 0) + 1)
 
 \* reads, failed operations and free-form marks do not change the storage
 TSilent ==
@@ -125,20 +127,20 @@ TDamagePack ==
   /\ Is({"DamagePack"}) /\ Consume
   /\ packs' = Put(packs, E.id, GoodBlobs(E))
   /\ UNCHANGED <<idx, snaps, kids, keys, cfg>>
-  /\ UNCHANGED <<cmd, removed, saved, muts, base>>
+  /\ UNCHANGED <<cmd, removed, saved, muts, lockops, base>>
 
 TCmdBegin ==
   /\ Is({"Cmd"}) /\ E.phase = "begin" /\ Consume
   /\ cmd' = Put(cmd, E.proc, E.cmd)
   /\ removed' = Put(removed, E.proc, {})
   /\ saved' = Put(saved, E.proc, {})
-  /\ muts' = Put(muts, E.proc, 0)
+  /\ muts' = Put(muts, E.proc, 0) /\ lockops' = Put(lockops, E.proc, 0)
   /\ UNCHANGED storage /\ UNCHANGED base
 
 TCmdEnd ==
   /\ Is({"Cmd"}) /\ E.phase = "end" /\ Consume
   /\ cmd' = Put(cmd, E.proc, "")
-  /\ UNCHANGED storage /\ UNCHANGED <<removed, saved, muts, base>>
+  /\ UNCHANGED storage /\ UNCHANGED <<removed, saved, muts, lockops, base>>
 
 TNext ==
   \/ TReset \/ TTree \/ TSavePack \/ TSaveIndex \/ TSaveSnap
@@ -148,7 +150,7 @@ TNext ==
 
 TInit ==
   /\ StorageInit /\ l = 1
-  /\ cmd = EmptyFn /\ removed = EmptyFn /\ saved = EmptyFn /\ muts = EmptyFn
+  /\ cmd = EmptyFn /\ removed = EmptyFn /\ saved = EmptyFn /\ muts = EmptyFn /\ lockops = EmptyFn
   /\ base = {} /\ ev = NoEv
 
 TraceSpec == TInit /\ [][TNext]_tvars
@@ -172,7 +174,7 @@ RewriteCmds == {"tag", "rewrite", "repair-snapshots"}
 SnapshotNotLost ==
   \A s \in DOMAIN snaps \ DOMAIN snaps' :
      (l <= Len(Trace) /\ Get(cmd, E.proc, "") \in RewriteCmds)
-        => \E s2 \in DOMAIN snaps' : OrigOf(snaps', s2) = OrigOf(snaps, s)
+        => \E s2 \in DOMAIN snaps' : snaps'[s2].orig \in {s, OrigOf(snaps, s)}
 R_SnapshotNotLost == [][SnapshotNotLost]_storage
 
 \* C26: a snapshot saved by such a command keeps the first snapshot's id as
@@ -181,7 +183,13 @@ OriginalKept ==
   \A s \in DOMAIN snaps' \ DOMAIN snaps :
      (l <= Len(Trace) /\ Get(cmd, E.proc, "") \in RewriteCmds)
         => /\ snaps'[s].orig # NoSnap
-           /\ \E o \in DOMAIN snaps : OrigOf(snaps, o) = snaps'[s].orig
+           /\ IF cmd[E.proc] = "tag"
+              \* tag: first id of the lineage is kept, tree untouched
+              THEN \E o \in DOMAIN snaps : /\ OrigOf(snaps, o) = snaps'[s].orig
+                                           /\ snaps[o].tree = snaps'[s].tree
+              \* rewrite / repair snapshots: the code records the replaced snapshot's id; the
+              \* statement ("first snapshot's ID") also admits the lineage's first id
+              ELSE \E o \in DOMAIN snaps : snaps'[s].orig \in {o, OrigOf(snaps, o)}
 R_OriginalKept == [][OriginalKept]_storage
 
 \* --------------------------------------------- per-event invariants
@@ -203,6 +211,10 @@ Readable   == (ev.ev \in SaveEvents /\ "readable" \in DOMAIN ev) => ev.readable
 ReadOnlyRespected ==
   (ev.ev = "Cmd" /\ ev.phase = "end" /\ "readonly" \in DOMAIN ev /\ ev.readonly)
      => Get(muts, ev.proc, 0) = 0
+\* C39: a command run with --no-lock did not even create a lock file
+NoLockRespected ==
+  (ev.ev = "Cmd" /\ ev.phase = "end" /\ "nolock" \in DOMAIN ev /\ ev.nolock)
+     => Get(lockops, ev.proc, 0) = 0
 
 \* C23: forget removed exactly the snapshots it reported
 ForgetMatchesReport ==
